@@ -201,6 +201,11 @@ def named_settings():
         mk([c([1, 2]), c([0, 1])], [c(min_=1), c([0, 1, 2])], mcp=1, name='mcp=1'),
         mk([c([0, 1, 2]), c(min_=0)], [c(min_=0), c([0, 2])], mcp=0, name='mcp=0 (documented to mean 1)'),
         mk([c([2, 3]), c([0, 1])], [c(min_=1), c([0, 3])], mcp=3, name='mcp=3'),
+        # complete degree lists that reach the other side's maximum are converted to open-ended minima per pattern:
+        # the parallel limit has to stay the one derived from the lists (3 here), not the default for open-ended connectors
+        mk([c([0, 1, 2, 3])], [c([0, 1, 2, 3])], name='complete lists 0..3 both sides 1x1'),
+        mk([c([0, 1, 2, 3]), c([0, 1])], [c([1, 2, 3])], name='complete lists up to 3, 2x1'),
+        mk([c([1, 2, 3]), c([0, 1], rep=False)], [c([0, 1, 2, 3]), c([0, 1, 2, 3, 4])], name='complete lists up to 3 and 4, 2x2'),
     ]
     return out
 
